@@ -184,7 +184,7 @@ pub fn check(c: &Case) -> Outcome {
                     ymax = ymax.max(inf_norm(&r.y));
                 }
                 let tolscale = atol + c.rtol * ymax;
-                let bound = 20.0 * kappa * (h.recs.len() as f64) * tolscale + 1e-11 * (1.0 + ymax);
+                let bound = crate::props::c01::C_BOUND * kappa * (h.recs.len() as f64) * tolscale + 1e-11 * (1.0 + ymax);
                 for r in &h.recs {
                     let e = max_abs_diff(&r.y, &prob.exact(r.x));
                     if e > bound {
@@ -223,7 +223,7 @@ pub fn check(c: &Case) -> Outcome {
                 for r in &h.recs {
                     ymax = ymax.max(inf_norm(&r.y));
                 }
-                let bound = 20.0 * prob.kappa() * (h.recs.len() as f64) * c.rtol * ymax + 1e-11 * (1.0 + ymax);
+                let bound = crate::props::c01::C_BOUND * prob.kappa() * (h.recs.len() as f64) * c.rtol * ymax + 1e-11 * (1.0 + ymax);
                 for (j, r) in h.recs.iter().enumerate() {
                     let ex = prob.exact(r.x);
                     let want: Vec<f64> = if j > k { ex.iter().map(|v| 2.0 * v).collect() } else { ex };
